@@ -96,8 +96,8 @@ CLAIMED['C17'] = dict(
          "also assigned on the copy-construction path; no nondeterminism source (rand, time seeding, foreign RNG engines, unordered iteration) "
          "occurs in library code (positive controls fire on every run); an if inside a copy operation whose branch copies a member from the source "
          "never tests the destination's own member; a raw back-pointer that a copy operation copies verbatim is re-bound to the copy's own object "
-         "on the copy path (five instances fire on the unchanged tree and are reported as KNOWN-FINDING: a copy of a persistently scaled solver keeps "
-         "pointing at the source's scaler and scaling factors). Component members that SoPlexBase's set*Param functions configure are copied by the component's operator= or re-applied after the copy; "
+         "on the copy path (the five instances that fired until the fourth session - a copy of a persistently scaled solver kept "
+         "pointing at the source's scaler and scaling factors - are repaired: F31 / F31b). Component members that SoPlexBase's set*Param functions configure are copied by the component's operator= or re-applied after the copy; "
          "a flag guarding a member vector is copied together with the vector. Not a proof of bit-identical results.",
     technique="observer read-set vs. copy write-set comparison, constructor-parity dataflow, alias/re-bind rules and forbidden-API scan over the clang-resolved AST and call graph",
     ref="DESIGN.md section 4, C17")
